@@ -127,6 +127,9 @@ struct World
     int rlib[NL] = { 0, 0 }, rsym[NS] = { 0, 0 };
     std::map<int, char> group_lib; // group -> 'a' | 'b' | 's'
     int next_group = 1;
+    // history that an implementation may remember: libraries from which a symbol was looked up and which were closed
+    // (unmapped) afterwards - part of the state key, so the exploration continues from "b opened after a was used and closed"
+    std::set<char> looked_up, closed_after_lookup;
 
     int holders(int g) const
     {
@@ -154,7 +157,16 @@ struct World
         s += "|S:";
         for (int j = 0; j < NS; j++)
             s += name(rsym[j]) + ",";
+        s += "|H:";
+        for (char c : closed_after_lookup)
+            s += c;
         return s;
+    }
+    void note_history()
+    {
+        for (char which : { 'a', 'b' })
+            if (looked_up.count(which) && live_groups(which) == 0)
+                closed_after_lookup.insert(which);
     }
     int live_groups(char which) const
     {
@@ -239,6 +251,27 @@ static bool apply(World& w, const std::string& op, std::vector<Finding>* f, cons
             catch (std::exception&)
             {
             }
+            // a long path: the diagnostic is the loader's, whatever its length
+            {
+                std::string longpath = libdir() + "/" + std::string(300, 'L') + "/libvp_missing.so";
+                std::string loader_says;
+                if (!real_dlopen()(longpath.c_str(), RTLD_NOW))
+                    if (const char* m = ::dlerror())
+                        loader_says = m;
+                try
+                {
+                    Lib l2(longpath);
+                }
+                catch (nitro::dl::exception& e2)
+                {
+                    if (!loader_says.empty() && e2.dlerror() != loader_says)
+                        fail("dl-exception-without-loader-diagnostic", "for a missing library with a path of " + std::to_string(longpath.size()) + " characters dlerror() has " +
+                                                                           std::to_string(e2.dlerror().size()) + " characters, the loader's diagnostic has " + std::to_string(loader_says.size()));
+                }
+                catch (std::exception&)
+                {
+                }
+            }
             if (kept.dlerror() != text || std::string(kept.what()) != what)
                 fail("dl-exception-loses-its-diagnostic", "a kept copy of the exception said " + mc::jstr(text) + " when caught and says " + mc::jstr(kept.dlerror()) +
                                                               " after later loader calls");
@@ -259,6 +292,7 @@ static bool apply(World& w, const std::string& op, std::vector<Finding>* f, cons
         {
             w.sym[j].emplace(w.lib[i]->load<int()>(name));
             w.rsym[j] = w.rlib[i];
+            w.looked_up.insert(w.group_lib[w.rlib[i]]);
         }
         catch (std::exception& e)
         {
@@ -545,12 +579,16 @@ static Step dl_step(const std::vector<std::string>& hist, const std::string& op)
     {
         dlm::World w;
         for (auto& h : hist)
+        {
             dlm::apply(w, h, nullptr, "");
+            w.note_history();
+        }
         st.prefix_key = w.key();
         std::string ctx = "after [" + seqmc::join_hist(hist) + "] then " + op;
         bool enabled = dlm::apply(w, op, &st.findings, ctx);
         if (enabled)
         {
+            w.note_history();
             dlm::observe(w, st.findings, ctx);
             st.next_key = w.key();
             st.outcome = st.next_key;
@@ -593,6 +631,9 @@ static std::vector<std::string> env_values()
     // sizes: around the short-string and small-buffer thresholds, and long
     for (size_t n : { 15u, 16u, 17u, 255u, 256u, 257u, 4096u, 100000u })
         out.push_back(std::string(n, 'v') + "=end");
+    // values that an implementation might use as an internal marker for "not set", and the defaults the check passes
+    for (auto v : { "<unset>", "unset", "(null)", "NULL", "nullptr", "<none>", "none", "default", "\x01", "0", "-1" })
+        out.push_back(v);
     return out;
 }
 
@@ -649,7 +690,7 @@ int main(int argc, char** argv)
     seqmc::Spec d;
     d.id = "C19";
     d.name = "dl";
-    d.initial_key = "L:-,-,|S:-,-,";
+    d.initial_key = "L:-,-,|S:-,-,|H:";
     d.ops = dlm::ops;
     d.step = dl_step;
     auto vals = env_values();
